@@ -158,7 +158,11 @@ static void run_case(int id, int max) {
   for (i = 1; i <= 7; i++) coap_register_request_handler(r, (coap_request_t)i, h_req);
   coap_add_resource(ctx, r);
   sim_addr(&a, "127.0.0.1", 0);
-  ep = coap_new_endpoint(ctx, &a, proto);
+  {
+    int tries;
+    for (tries = 0; !(ep = coap_new_endpoint(ctx, &a, proto)) && tries < 60; tries++) sleep(1);     /* many cases per process: wait out port exhaustion */
+    if (!ep) { fputs("{\"e\":\"Crash\"}\n", sim_trace); fflush(sim_trace); _exit(3); }
+  }
   sim_add_node(ctx);
   accepted = closed = 0;
   sess = NULL;
@@ -210,6 +214,10 @@ static void run_case(int id, int max) {
   sim_remove_node(ctx);
   coap_free_context(ctx);
   ctx = NULL; ep = NULL;
+  {
+    struct linger lg = {1, 0};                       /* reset instead of TIME_WAIT: thousands of connections per run */
+    setsockopt(cfd, SOL_SOCKET, SO_LINGER, &lg, sizeof(lg));
+  }
   close(cfd);
 }
 
